@@ -2315,6 +2315,19 @@ def rule_ndjson_header(out, tier):
 
     def norm(t):
         return t.replace(" ", "").replace("\n", "")
+    # ReadHeader may hand the line it read to a helper of the header and return what that returns: the helper is judged
+    for _ in range(2):
+        target = None
+        for x in walk(body_of(rh)):
+            if x.get("kind") == "ReturnStmt":
+                for y in walk(x):
+                    if y.get("kind") == "CallExpr":
+                        nm = callee_name(y).split("::")[-1]
+                        if nm in fns and fns[nm] is not rh and nm != "ReadAndValidateHeader":
+                            target = fns[nm]
+        if target is None:
+            break
+        rh = target
     # ReadHeader: try-block paths are paths too (CxxPaths walks CXXTryStmt bodies as compound statements when they are CompoundStmt children)
     cp = CxxPaths({})
     ok_paths = [p for p in cp.paths(rh) if p.outcome != "throw"]
@@ -2360,13 +2373,42 @@ def rule_ndjson_header(out, tier):
                     with_default = "value" in calls
                     cmps.append((txt(x), op, '"\\"version\\""' in json.dumps(strs) or any("version" in t for t in strs), by_index and not with_default))
         good_cmp = [c for c in cmps if c[2] and c[3]]
+
+        def squeeze(t):
+            t = t.replace(" ", "").replace("\n", "")
+            while t.startswith("(") and t.endswith(")") and _balanced(t[1:-1]):
+                t = t[1:-1]
+            return t
+
+        def verdict(p, text, val, upto, depth=0):
+            """does `text` having the value `val` (known after `upto` literals of path p) say that the version compared equal?
+            A boolean local is followed to what it was last assigned / initialised with: `ok = !mismatch`, `bool mismatch = a != b`."""
+            u = squeeze(text)
+            for t, op, _isver, _idx in good_cmp:
+                if squeeze(t) == u:
+                    return (op == "!=" and not val) or (op == "==" and val)
+            if depth > 4:
+                return False
+            if u.startswith("!"):
+                return verdict(p, u[1:], not val, upto, depth + 1)
+            if re.fullmatch(r"[A-Za-z_]\w*", u):
+                src = None
+                for kind, etxt, nl in p.events:
+                    if kind == "assign" and nl <= upto:
+                        m = re.match(r"^\s*%s\s*=(?!=)\s*(.*)$" % re.escape(u), etxt, re.S)
+                        if m:
+                            src = m.group(1)
+                if src is None and u in p.env:
+                    src = p.env[u]
+                if src is not None:
+                    return verdict(p, src, val, upto, depth + 1)
+            return False
         bad = None
         for p in ok_paths:
             good = False
-            for t, op, _isver, _idx in good_cmp:
-                for lt, val in p.lits:
-                    if lt == t and ((op == "!=" and not val) or (op == "==" and val)):
-                        good = True
+            for i, (lt, val) in enumerate(p.lits):
+                if verdict(p, lt, val, i):
+                    good = True
             if not good:
                 bad = p
         out.check(bad is None and bool(good_cmp), rid, "ReadHeader/version compared", posn, "every completing path found header[\"version\"] equal to the format version",
